@@ -136,7 +136,7 @@ def run(ctx):
     rng = ctx.rng
     msolve.install(ctx, owner="C01", brute_cap=64)
     thorough = ctx.tier == "thorough"
-    per = 36 if not thorough else 150
+    per = 48 if not thorough else 150
     names = list(rules.PUZZLES)
     for t in range(per):
         for name in names:
@@ -145,7 +145,7 @@ def run(ctx):
                 judge(ctx, name, inst)
             if t == 0 and ctx.shard == 0 and name in ("slitherlink", "heyawake"):
                 ctx.sample({"puzzle": name, "instance": inst})
-    for t in range(1 if not thorough else 12):
+    for t in range(2 if not thorough else 12):
         for name in planted.PLANTERS:
             r = planted.plant(name, rng)
             if r is None:
